@@ -1,12 +1,16 @@
 import GqlgenVerif.Model.Pipeline
 import GqlgenVerif.Model.PipelineSpec
 import GqlgenVerif.Model.SuggRace
+import GqlgenVerif.Model.PipelineGuards
 /-! Line-protocol driver for C03 (stateful: query table, global rule list, current session).
 
 ```
-Q <key> -|<nField>:<nOther>:<sugg>:<ops>        ops = -|name/q|s/roots;…   roots = -|n.n.…   name _ = anonymous
+Q <key> -|<nField>:<nOther>:<sugg>:<ops> [<ntok>]   ops = -|name/q|s/roots;…   roots = -|n.n.…   name _ = anonymous
+                                                ntok = tokens the parser consumes for the text (default 0)
 G reset                                         global rule list := initial
-S none|map|lru<N> <disable 0|1> -|id:FLAGS,…    FLAGS ⊆ PCORTF        new executor, empty cache
+S none|map|lru<N> <disable 0|1> -|id:FLAGS,… [<limit>]   FLAGS ⊆ PCORTF   new executor, empty cache,
+                                                SetParserTokenLimit(limit) (default / 0 = none): model and Spec
+                                                see `World.withLimit` (a text over the limit has no document)
 R <q> <op|_> <vars bits|-> <pmrej|-> <pmrw id>q,…|-> <cmrej|-> <blk|-> <xerr> <emit> <polls>
     → <ok|rej> <resps> <log> #<gate> <rules>
 C <the ten R fields> <ok|rej> <resps> <log>     Spec.ok of an observation (state unchanged) → ok | violates:…
@@ -23,12 +27,18 @@ inductive Sess where
 
 structure DState where
   table : List (Nat × Option Doc) := []
+  ntoks : List (Nat × Nat) := []
+  limit : Nat := 0
   rules : Rules := initRules
   cfg : Cfg := { exts := [] }
   sess : Sess := .no ()
 
-def world (t : List (Nat × Option Doc)) : World :=
+def world0 (t : List (Nat × Option Doc)) : World :=
   { parse := fun k => (t.find? (·.1 == k)).bind (·.2) }
+
+/-- gqlparser as classified by the oracle, under the session's token limit -/
+def worldOf (st : DState) : World :=
+  (world0 st.table).withLimit (fun k => ((st.ntoks.find? (·.1 == k)).map (·.2)).getD 0) st.limit
 
 def splitNonEmpty (s : String) (sep : String) : List String :=
   if s == "-" || s == "" then [] else s.splitOn sep
@@ -193,17 +203,18 @@ def gateTag : Option Gate → String
 
 def step (st : DState) (line : String) : DState × String :=
   match line.splitOn " " with
-  | ["Q", k, d] =>
-    match k.toNat? with
-    | some k =>
+  | "Q" :: k :: d :: rest =>
+    match k.toNat?, (match rest with | [] => some 0 | [n] => n.toNat? | _ => none) with
+    | some k, some nt =>
       match parseDoc k d with
-      | some pd => ({ st with table := (k, pd) :: st.table }, "ok")
+      | some pd => ({ st with table := (k, pd) :: st.table, ntoks := (k, nt) :: st.ntoks }, "ok")
       | none => (st, "bad-op")
-    | none => (st, "bad-op")
+    | _, _ => (st, "bad-op")
   | ["G", "reset"] => ({ st with rules := initRules }, "ok")
-  | ["S", cache, dis, exts] =>
-    match (splitNonEmpty exts ",").mapM parseExt with
-    | some es =>
+  | "S" :: cache :: dis :: exts :: rest =>
+    match (splitNonEmpty exts ",").mapM parseExt, (match rest with | [] => some 0 | [n] => n.toNat? | _ => none) with
+    | some es, some lim =>
+      let st := { st with limit := lim }
       let cfg : Cfg := { exts := es, disableSuggestion := dis == "1" }
       if cache == "none" then ({ st with cfg := cfg, sess := .no () }, "ok")
       else if cache == "map" then ({ st with cfg := cfg, sess := .map Apq.mapEmpty }, "ok")
@@ -212,11 +223,11 @@ def step (st : DState) (line : String) : DState × String :=
         | some n => ({ st with cfg := cfg, sess := .lru (Apq.lruEmpty n) }, "ok")
         | none => (st, "bad-op")
       else (st, "bad-op")
-    | none => (st, "bad-op")
+    | _, _ => (st, "bad-op")
   | "R" :: rest =>
     match parseReq rest with
     | some r =>
-      let (o, sess, rules) := runSess (world st.table) st.cfg st.rules r st.sess
+      let (o, sess, rules) := runSess (worldOf st) st.cfg st.rules r st.sess
       ({ st with sess := sess, rules := rules },
         s!"{if o.gate.isNone then "ok" else "rej"} {showResps o.resps} {showLog o.log} #{gateTag o.gate} {showRules rules}")
     | none => (st, "bad-op")
@@ -225,7 +236,7 @@ def step (st : DState) (line : String) : DState × String :=
     | some r, [_acc, resps, log] =>
       match (splitNonEmpty resps ";").mapM parseResp, (splitNonEmpty log ",").mapM parseEv with
       | some rs, some l =>
-        let W := world st.table
+        let W := worldOf st
         if Spec.ok W st.cfg.exts r l rs then (st, "ok")
         else
           match Spec.accepts W st.cfg.exts r with
